@@ -659,6 +659,8 @@ class Engine:
             return self.branch(st, PyVal.is_RefV(o.t),
                                lambda s: k(s, SFunc("objdict", SRef(PyVal.rval(o.t), "ref:" + (fr.cls.name if fr.cls else "Block")))),
                                lambda s: self.raise_new(s, "AttributeError"), "dyn.__dict__")
+        if isinstance(o, SRef) and o.kind == "ext":
+            return k(st, SFunc("extmethod", attr, bound_self=o))
         if isinstance(o, SRef) and o.kind.startswith("ref:"):
             cname = o.kind[4:]
             groups = self.resolution_groups(cname, attr)
@@ -939,6 +941,18 @@ class Engine:
                 return bm.call_method(self, f.bound_self, f.payload, args, kwargs, st, fr, k, node)
             if f.what == "dynattr":
                 return bm.call_dyn_method(self, f.bound_self, f.payload, args, kwargs, st, fr, k, node)
+            if f.what == "extmethod":
+                # A-EXT: a method of a third-party object returns a value of its declared kind or raises some Exception; it
+                # writes nothing the repository's objects can see
+                ret = getattr(self, "ext_methods", {}).get(f.payload)
+                if ret is None:
+                    raise EngineError(f"third-party method {f.payload} has no assumed contract (api.external_method)")
+                self.trusted_used.add(f"A-EXT: third-party method .{f.payload}() returns {ret} or raises an Exception, writes nothing modelled")
+                s_exc = st.copy()
+                s_exc.trace.append(f"ext.{f.payload}:raises")
+                outs = self.raise_new(s_exc, "Exception")
+                res = from_sort(ret, fresh(f"ext_{f.payload}", kind_sort(ret))) if ret != "none" else SNone()
+                return outs + k(st, res)
             if f.what == "pred":
                 fn, _g = self.preds[f.payload]
                 if not st.spec:
